@@ -399,7 +399,7 @@ func (l *Lexer) decodeRune(pos int) (rune, int, error) {
 		return r, sz, errUnexpectedEndOfExpression
 	}
 
-	if r == utf8.RuneError {
+	if r == utf8.RuneError && sz == 1 {
 		return r, sz, errInvalidRune
 	}
 
